@@ -148,6 +148,23 @@ def body(run):
                                   observed=dict(band=b + 1, pixel=[r, c_], corrected=float(C[b, r, c_]), expected=float(exp[r, c_]), n=int(bad.sum())),
                                   signature=dict(kind='linear', model=model, grid='src'))
                 break
+    # ---- a tiny island of valid pixels alone in its block: the relation is recovered there as everywhere else (the block's own normalisation,
+    #      however few pixels it rests on)
+    for k in range(run.scale(4, 12)):
+        n_isl = [6, 3, 9, 2, 5, 4][k % 6]
+        ic_ = e2e.island_case(run.work, rng, n_isl, model='gain-blk-offset', tag='isl', threads=[1, 2][k % 2])
+        C = ic_['res']['corr']['array'][0].astype('float64')
+        run.count_case(('isl', k), True, ic_['desc'] if k < 1 else None)
+        if ic_['nblk'] < 4:
+            continue
+        exp = ic_['a'] * ic_['src'][0].astype('float64') + ic_['b']
+        with np.errstate(invalid='ignore'):
+            bad = ic_['smask'] & ~(np.abs(C - exp) <= 2e-3 * (1 + np.abs(exp)))
+        if bad.any():
+            r, c_ = (int(v) for v in np.argwhere(bad)[0])
+            run.add_violation('corrected image differs from a * source + b although the reference is exactly a * x + b', ic_['desc'],
+                              observed=dict(pixel=[r, c_], corrected=float(C[r, c_]), expected=float(exp[r, c_]), n=int(bad.sum()), on_the_island=int((bad & ic_['island']).sum())),
+                              signature=dict(kind='linear', model='gain-blk-offset', grid='src'))
     run.cov['rule'] = ('real fusions where the reference is rewritten as a * x + b (x = the NaN-padded source down-sampled with the pipeline\'s own call), '
                        'per band (a, b), ratios {1, 1.7, 2, 2.5, 3, 4.3}, sub-pixel offsets, origins up to 7.6e6, holes / borders / islands, kernels incl. h != w, '
                        '1..40 blocks, threads {1, 3}, 3 up-sampling kernels: every valid source pixel must equal a * source + b to 2e-5 (1e-3 gain-offset) '
